@@ -108,11 +108,30 @@ fn known_dev(out: &mut Vec<Witness>, label: String, got: Option<String>, deviant
         }
     } else { cmp(out, label, got, Some(grammar.to_string())); }
 }
+/// white space next to a parenthesis or comma separates nothing (outside quoted text): `HASH(` and `HASH (` are the same tokens
+fn norm2(sql: &str) -> String {
+    let t: Vec<char> = crate::c08::norm(sql).chars().collect();
+    let (mut out, mut i, mut quote): (String, usize, Option<char>) = (String::new(), 0, None);
+    while i < t.len() {
+        let c = t[i];
+        match quote {
+            Some(q) => { out.push(c); if c == '\\' && q == '\'' && i + 1 < t.len() { i += 1; out.push(t[i]); } else if c == q { quote = None; } }
+            None => {
+                if c == '\'' || c == '"' || c == '`' { quote = Some(c); out.push(c); }
+                else if c == ' ' && (i + 1 < t.len() && matches!(t[i + 1], '(' | ')' | ',') || out.ends_with(|p| matches!(p, '(' | ')' | ','))) { /* drop */ }
+                else { out.push(c); }
+            }
+        }
+        i += 1;
+    }
+    out
+}
 static NO_CAP: std::sync::atomic::AtomicBool = std::sync::atomic::AtomicBool::new(false);
 fn cmp(out: &mut Vec<Witness>, label: String, got: Option<String>, want: Option<String>) {
     if !NO_CAP.load(std::sync::atomic::Ordering::Relaxed) && out.iter().filter(|w| !w.observed.starts_with("known-deviation(")).count() >= 6 { return; }
+    // the amount of white space between tokens is not part of the property (same normalisation as the C08 search: outside quoted text)
     match (&got, &want) {
-        (Some(g), Some(w)) if g == w => {}
+        (Some(g), Some(w)) if norm2(g) == norm2(w) => {}
         (None, None) => {}
         _ => out.push(Witness { property: "C14", input: label, observed: got.unwrap_or_else(|| "<the renderer panicked>".into()), expected: want.unwrap_or_else(|| "<the dialect has no form for this: the renderer refuses (panics)>".into()) }),
     }
